@@ -69,8 +69,8 @@ var keyPool = [][]byte{
 	[]byte("0123456789abcdef0123456789abcdef"), // a hash-sized key
 }
 
-var otherValues = [][]byte{{0xab, 0xcd}, {0, 0, 0}, []byte("hello"), {0xff, 0x00, 0xff, 0x00}, core.LongValue()}
-var oneByteValues = [][]byte{{0x01}, {0x00}, {0x7f}}
+var otherValues = [][]byte{{0xab, 0xcd}, {0, 0, 0}, []byte("hello"), []byte("HELLO"), []byte("Hello"), {0xff, 0x00, 0xff, 0x00}, {0x80, 0x00, 0x80, 0x00}, core.LongValue()}
+var oneByteValues = [][]byte{{0x01}, {0x00}, {0x7f}, {0x80}, {0xff}} // 0x80 / 0xff: equal under any text-minded comparison
 
 func valTok(v []byte) string { return core.OB(v) }
 
